@@ -342,6 +342,8 @@ func Garbage(kind string, valid []byte, r *rand.Rand) []byte {
 
 var GarbageKinds = []string{"garbage:one-octet", "garbage:random32", "garbage:truncated-half", "garbage:choice3", "garbage:random2048", "garbage:bad-length", "garbage:zeros", "garbage:truncated-1", "garbage:random2047", "garbage:random8192", "garbage:other-type-truncated", "garbage:dl-nas-header", "garbage:unsolicited-header", "garbage:late-17s", "garbage:sctp-notification-shaped"}
 
+func pick3(r *rand.Rand, xs ...string) string { return xs[r.Intn(len(xs))] }
+
 func pickByte(r *rand.Rand, xs ...byte) byte { return xs[r.Intn(len(xs))] }
 
 func maxInt(a, b int) int {
@@ -860,6 +862,13 @@ func (a *AMF) downNAS(ue *ueCtx, nasB []byte, nasName, tag string, sht int, coun
 		v.NASPDU = &ngapType.NASPDU{Value: nasB}
 	})
 	if a.Ch.ExtraDLIEs {
+		add(36, 1, func(v *ngapType.DownlinkNASTransportIEsValue) {
+			// Mobility Restriction List: the AMF names ITS serving PLMN (with network sharing or equivalent PLMNs not the one
+			// the gNB announced) - information for the gNB's mobility decisions, nothing the gNB may announce from then on
+			v.Present = 6
+			other := ident.PLMN(pick3(a.Ch.R, "208", "999", "001"), pick3(a.Ch.R, "93", "999", "01"))
+			v.MobilityRestrictionList = &ngapType.MobilityRestrictionList{ServingPLMN: ngapType.PLMNIdentity{Value: other}}
+		})
 		add(31, 1, func(v *ngapType.DownlinkNASTransportIEsValue) {
 			v.Present = 7
 			v.IndexToRFSP = &ngapType.IndexToRFSP{Value: 1 + int64(a.Ch.R.Intn(256))}
